@@ -64,7 +64,31 @@ func goReplay(cl *cluster, m *member, r int) []int {
 	return set
 }
 
+// c10Witnesses: hashgraph-level histories with joins and leaves in which the leaver goes on
+// creating events after its removal took effect: its events are no witnesses of those rounds (and the
+// whole run is compared with the operational model, which decides witness-hood by the round's set)
+func c10Witnesses(r *Result, rng *rand.Rand, thorough bool) {
+	k := 3
+	if thorough {
+		k = 16
+	}
+	for i := 0; i < k; i++ {
+		o := randomOpts(rng, thorough, true)
+		o.leave = true
+		if o.n0 < 4 {
+			o.n0 = 4
+		}
+		o.steps += 150
+		sc := buildScenario(rng, o, 1, false, false, false)
+		checkOracles(r, sc)
+		r.Inc("leave_scenarios", 1)
+		r.Compare(sc.cs[0])
+		sc.close()
+	}
+}
+
 func runC10(r *Result, thorough bool) {
+	defer func() { c10Witnesses(r, rand.New(rand.NewSource(r.Seed+5)), thorough) }()
 	r.Rule = "G2 runs of real cores (3-5 genesis validators) with successive and simultaneous join requests, two requests carried by one event (two receipts in one block: accepted+accepted, accepted+refused, refused+accepted), a leave, a re-join after leave, requests refused by the application, and a late joiner that replays the whole history; " +
 		"for every member and every round up to last round + 8: Store.GetPeerSet(r) vs the Lean table model (buildTable / peersAtTbl) and vs an independent Go replay of the member's own delivered blocks; block PeersHash vs the set at its round received; histories compared across members. " +
 		"non-trivial: >=1 accepted change and lookups on both sides of its effective round"
